@@ -427,7 +427,9 @@ func C07(ctx *core.Ctx) {
 						if !ssax.TypeNamed(cb.Common.Value.Type(), "", "FAsyncCallback") {
 							continue
 						}
-						if nb := errNilSuccessor(cb.Instr.Value()); nb != nil {
+						if nb := errNilSuccessor(cb.Instr.Value()); nb != nil && len(nb.Preds) == 1 {
+							// the nil *edge*: its target has no other way in (an ack in a block
+							// that the error branch can also fall into is not "after success")
 							if nb == c.Instr.Block() || nb.Dominates(c.Instr.Block()) {
 								ok = true
 							}
